@@ -5,13 +5,13 @@ from checks.c06 import TYPES, rng_of
 K = 16
 SIZE = 1 << K
 # guest (ABI A) size of each pointee, written down independently of the model and of rlbox
-GSIZE = {"char": 1, "short": 2, "int": 4, "long": 4, "llong": 8, "float": 4, "double": 8, "ptr": 4, "arr3": 12, "st12": 12}
-ASIZE = {"char": 1, "short": 2, "int": 4, "long": 8, "llong": 8, "float": 4, "double": 8, "ptr": 8, "arr3": 12, "st12": 24}
+GSIZE = {"char": 1, "short": 2, "int": 4, "long": 4, "llong": 8, "float": 4, "double": 8, "ptr": 4, "arr3": 12, "st12": 12, "arr2x3": 24}
+ASIZE = {"char": 1, "short": 2, "int": 4, "long": 8, "llong": 8, "float": 4, "double": 8, "ptr": 8, "arr3": 12, "st12": 24, "arr2x3": 48}
 GUEST_BYTES_A = {"short": 2, "ushort": 2, "char16": 2, "int": 4, "uint": 4, "char32": 4, "long": 4, "ulong": 4, "llong": 8, "ullong": 8}
 FORMS_N = ["add", "sub", "addeq", "subeq", "idx", "addridx"]
 FORMS_1 = ["preinc", "postinc", "predec", "postdec"]
 
-PARTS = [("h_ptr.cpp", [f"-DPTR_PART={i}"]) for i in range(10)] + [("h_ptr.cpp", [])]
+PARTS = [("h_ptr.cpp", [f"-DPTR_PART={i}"]) for i in range(11)] + [("h_ptr.cpp", [])]
 
 
 def build():
@@ -150,7 +150,7 @@ def run(chk):
             outcomes["ok" if a.startswith("ok") else "abort" if a == "abort" else "other"] += 1
     chk.cov["input_distribution"] = {"by_form": hist, "outcomes": outcomes}
     chk.cov["distinct_nontrivial"] = len(set(ops))
-    chk.cov["rule"] = ("10 pointee types x {null, first, last element, interior aligned/unaligned, near end} x 10 forms x {plain,tainted,tainted_volatile} "
+    chk.cov["rule"] = ("11 pointee types (incl. a one- and a two-dimensional array) x {null, first, last element, interior aligned/unaligned, near end} x 10 forms x {plain,tainted,tainted_volatile} "
                        "operands of all 15 integer types x boundary values (0, +-1, elements to either end +-1, type limits, 2^k +-1, (2^k)/s +-1 for k up to 64, random); "
                        "distinct = distinct op lines; oracle = exact integer arithmetic p +- n*s_guest and membership in [0, 2^16)")
     chk.add_samples([{"op": o, "impl": a, "model": b} for o, a, b in list(zip(ops, res["impl"], res["model"]))[1::max(1, len(ops) // 6)]])
